@@ -1,5 +1,5 @@
 """What MANIFEST.json claims, per property (edited by hand; tools/mkmanifest.py renders it)."""
-HOOK_COMMITS = ["7ed0aad", "d8606cd", "08f1a83", "8f24443"]
+HOOK_COMMITS = ["7ed0aad", "d8606cd", "08f1a83", "8f24443", "c07948e"]
 NOTES = ("Every check rebuilds the harness against /repo's working tree and the Lean project, runs the proof stage "
          "(lake build of the property's theorem module + #print axioms audit), the model/implementation correspondence "
          "and the property oracle on the implementation. Genuine defects found are repaired by fix: commits in /repo "
@@ -78,7 +78,10 @@ CLAIMS = {
         "exchange, of the Minecraft Java query against a TCP peer that never writes, and of a TCP read against a peer that writes part of a reply and "
         "then stalls with the connection open, of the Eco query through the HTTP client against a peer that is mute / stalls in the head / in the body / "
         "refuses, and of EVERY UDP family (Quake, GameSpy 1/2/3, Unreal 2, Bedrock, Valve) against a loopback server that replays a valid exchange up to "
-        "a cut point — result and requests seen compared with the model of the cut exchange —, each vs (model's count of timed-out steps) x READ timeout "
+        "a cut point — result and requests seen compared with the model of the cut exchange —, of the HTTP client against 29 server behaviours x 3 calls "
+        "(refuses, unanswered connect, mute, stalls / closes in the head and in the body, error statuses, redirects, non-JSON: Props/C12_http.lean proves the "
+        "decision tables — which failure gives which error kind, at most ONE timed-out step and which duration bounds it; found and repaired: a stall inside "
+        "nested JSON cost one read timeout per open bracket) —, each vs (model's count of timed-out steps) x READ timeout "
         "+ slack with write / connect timeouts ten times longer; byte-exact round trips for payloads "
         "0..65507 (UDP) / 100 000 (TCP); refused connections. The runtime behaviour a model cannot exhibit (kernel timers, scheduling) is exactly the "
         "measured part."),
@@ -139,7 +142,10 @@ CLAIMS = {
         "accept has three non-zero durations; deserialisation is the constructor; every configuration accepted by any path (or Default, or none) "
         "passes apply_timeout's unwraps and makes connect_timeout at worst return an error value; the retry combinator has no crash of its own for "
         "any retry count. Tie + oracle: the quantifier's matrix enumerated exhaustively through new / serde_json / clap on the real code, every "
-        "accepted value then used on real UDP and TCP sockets, extreme retry counts on scripted queries."),
+        "accepted value then used on real UDP and TCP sockets, extreme retry counts and durations on scripted queries of every family, extreme host names / "
+        "protocol versions as request settings. THE HTTP CLIENT (Props/C18_http.lean): each duration reaches the agent unchanged at its own place (None = the "
+        "builder's default), nothing is computed from the durations, no panic for any accepted combination; tie: http-plan with 17 duration triples incl. "
+        "the largest against a server that answers."),
   note=TB + "clap/serde derive output is modelled (field-wise construction through parse_duration_secs / try_from), std socket-option behaviour is exercised on real sockets, not proved.",
   technique="Lean 4 proof (decision logic of the three construction paths) + exhaustive configuration matrix on the real code"),
  "C16": dict(
@@ -191,8 +197,14 @@ CLAIMS = {
         "request literals, socket / port invariant and, where the protocol has one, the challenge echo (GameSpy 3 for every i32, Minecraft Java "
         "handshake framing); master server: the WHOLE log equals a closed form for every script (C09_master_log), every follow-up request is seeded with "
         "the last address of the page just received, port 27011. Tie + oracle: the implementation's sent datagrams (port + bytes, in order) equal the "
-        "SPEC request list on generated exchanges with stratified challenge values; request settings on every VarInt group boundary."),
-  note=TB + "per-game default ports (definitions table) are covered under C14.",
+        "SPEC request list on generated exchanges with stratified challenge values; request settings on every VarInt group boundary; every family also "
+        "through the definition-driven generic query with the port omitted (= the definition's default) and given. THE HTTP CLIENT (Props/C09_http.lean over "
+        "Proto/Http.lean, a model of http.rs incl. the url crate's parser and ureq's request head): for every IPv4 / IPv6 address, port, plain host name, path "
+        "and settings the connection goes to exactly the caller's address and port (the resolver answers every name with it), the Host header names the host "
+        "name when one is given and the address otherwise (for IPv6 it parses back to the address), the request target is the path asked for, Eco asks for "
+        "GET /frontpage; host names that change the URL (`/ ? # @ :`) are recorded as witnesses; tie: entries http-url / http-plan (the real client against a "
+        "recording loopback listener, head compared byte for byte with the model's)."),
+  note=TB + "per-game default ports (definitions table) are covered under C14; of the HTTP client ureq's wire behaviour, IDNA for non-ASCII names and serde are parameters.",
   technique="Lean 4 proof (event invariant over all scripts + unfolding equation for the echo) + sent-log differential against SPEC"),
  "C08": dict(
   category="proof",
